@@ -81,10 +81,10 @@ def job_hist(job, tmp):
     sim = L.new_sim(rebound, job["spec"])
     streams, files = [], []
     for op in job["ops"]:
-        if op[0] == "snap":
+        if op[0] in ("snap", "snap_del"):
             streams.append(L.stream_of(rebound, sim))
         L.apply_op(rebound, sim, op, fname)
-        if op[0] == "snap" and job.get("bytes"):
+        if op[0] in ("snap", "snap_del") and job.get("bytes"):
             files.append(open(fname, "rb").read())
     out = {"nsnap": len(streams), "N_final": sim.N}
     if streams:
@@ -176,6 +176,16 @@ def snap_hashes(sa):
     return hs, hr
 
 
+def snap_hashes_noseed(sa):
+    """strict hashes without rand_seed (a simulation created afresh legitimately draws a new seed)"""
+    import hashlib
+    out = []
+    for k in range(sa.nblobs):
+        m = L.masked(rebound, L.stream_of(rebound, sa[k]), FT, extra_names=("functionpointers", "rand_seed"))
+        out.append(hashlib.sha256(repr(sorted(m.items())).encode()).hexdigest())
+    return out
+
+
 def job_open(job, tmp):
     """open a file; everything a user sees: error / nblobs / offsets / t / warning; optionally re-save each snapshot"""
     res = L.lib_index(rebound, job["file"])
@@ -183,6 +193,8 @@ def job_open(job, tmp):
     if job.get("load") and res[0]:
         sa = rebound.Simulationarchive(job["file"], process_warnings=False)
         out["snap_hashes"], out["snap_hashes_relaxed"] = snap_hashes(sa)
+        if job.get("noseed"):
+            out["snap_hashes_noseed"] = snap_hashes_noseed(sa)
     return out
 
 
@@ -429,7 +441,9 @@ def job_autoF(job, tmp):
     for _ in range(job.get("presteps", 0)):
         sim.step()
     twin = sim.copy()
-    sim.save_to_file(fname, interval=job["interval"])
+    import ctypes
+    # C entry point: the Python wrapper treats interval=0 as "not given"
+    rebound.clibrebound.reb_simulation_save_to_file_interval(ctypes.byref(sim), fname.encode("ascii"), ctypes.c_double(job["interval"]))
     next0 = sim.simulationarchive_next
     xs = []
     for c in job["chunks"]:
@@ -445,6 +459,22 @@ def job_autoF(job, tmp):
     lt = [sa.t[i] for i in range(sa.nblobs)]
     return {"xs": [x.hex() for x in xs], "sign": (1.0 if sim.dt > 0 else -1.0), "interval": job["interval"], "next0": next0.hex(),
             "lib_t": [x.hex() for x in lt], "final_next": sim.simulationarchive_next.hex(), "same_t": twin.t == sim.t}
+
+
+def job_disabled(job, tmp):
+    """cadence value 0 means 'no automatic snapshots' for all three cadences (C entry points; the Python wrapper ignores them)"""
+    import ctypes
+    out = {}
+    for mode, fn, ct in (("interval", "reb_simulation_save_to_file_interval", ctypes.c_double(0.0)), ("walltime", "reb_simulation_save_to_file_walltime", ctypes.c_double(0.0)),
+                         ("step", "reb_simulation_save_to_file_step", ctypes.c_uint64(0))):
+        f = os.path.join(tmp, "dis_%s.bin" % mode)
+        if os.path.exists(f):
+            os.remove(f)
+        sim = L.new_sim(rebound, {"n": 2, "integrator": "leapfrog", "dt": 0.05})
+        getattr(rebound.clibrebound, fn)(ctypes.byref(sim), f.encode("ascii"), ct)
+        sim.integrate(0.5, exact_finish_time=0)
+        out[mode] = {"file_created": os.path.exists(f), "steps": int(sim.steps_done)}
+    return out
 
 
 def job_spoof(job, tmp):
@@ -475,6 +505,34 @@ def job_spoof(job, tmp):
     msgs = []
     sa = rebound.Simulationarchive(f, process_warnings=False)
     return {"cut": k, "write_len": len(w), "nblobs_after_crash": nb0, "nblobs_after_two_appends": int(sa.nblobs)}
+
+
+def job_rerun(job, tmp):
+    """what a user does after a crash during the FIRST write: if the file exposes a snapshot, restart from it; if opening reports
+    an error (no complete snapshot), run the whole history again from the start with the same file name.  Either way the final
+    archive must be the uninterrupted one.  Also counts leaked file descriptors."""
+    fname = job["file"]; segs = job["segs"]
+    fd0 = len(os.listdir("/proc/self/fd"))
+    try:
+        sa = rebound.Simulationarchive(fname, process_warnings=False)
+        sim = sa[-1]; del sa
+        start = 1; restarted = True
+    except RuntimeError:
+        sim = L.new_sim(rebound, job["spec"])
+        start = 0; restarted = False
+    for i in range(start, len(segs)):
+        for op in segs[i]:
+            L.apply_op(rebound, sim, op, fname)
+        sim.save_to_file(fname)
+    fd1 = len(os.listdir("/proc/self/fd"))
+    out = {"restarted_from_snapshot0": restarted, "fd_growth": fd1 - fd0, "snap_hashes": [], "snap_hashes_relaxed": []}
+    try:
+        sa = rebound.Simulationarchive(fname, process_warnings=False)
+        out["snap_hashes"], out["snap_hashes_relaxed"] = snap_hashes(sa)
+        out["snap_hashes_noseed"] = snap_hashes_noseed(sa)
+    except RuntimeError as e:
+        out["open_error"] = repr(e)[:120]
+    return out
 
 
 def job_resume1(job, tmp):
@@ -525,7 +583,7 @@ def main():
     with tempfile.TemporaryDirectory(prefix="c06drv") as tmp:
         for job in jobs:
             try:
-                r = {"hist": job_hist, "auto": job_auto, "open": job_open, "resume": job_resume, "spoof": job_spoof, "cycle": job_cycle, "resume1": job_resume1, "many": job_many, "attach": job_attach, "autocrash": job_autocrash, "autoF": job_autoF, "autolive": job_autolive, "automix": job_automix}[job["kind"]](job, tmp)
+                r = {"hist": job_hist, "auto": job_auto, "open": job_open, "resume": job_resume, "spoof": job_spoof, "cycle": job_cycle, "resume1": job_resume1, "rerun": job_rerun, "many": job_many, "attach": job_attach, "autocrash": job_autocrash, "autoF": job_autoF, "autolive": job_autolive, "automix": job_automix, "disabled": job_disabled}[job["kind"]](job, tmp)
             except Exception as e:
                 import traceback
                 r = {"exception": "%r" % (e,), "tb": traceback.format_exc()[-600:]}
